@@ -105,7 +105,17 @@ def _pullrank(clause, replay, ctx):
     """Signature computed by the TLA+ judge (Dependent.tla KF_pull_rank): a
     dependent method that is a type-level candidate but not applicable to the
     values.  Only outcome clauses (never runs_iff_holds / bound_guard)."""
-    return ctx.get("kf") == "1" and clause.startswith("C10:value_outcome.")
+    return ctx.get("kf") == "1" and (clause.startswith("C10:value_outcome.") or clause.startswith("C07:value_chain."))
+
+
+@matcher("nextothervalue")
+def _nextothervalue(clause, replay, ctx):
+    """Signature computed by the TLA+ judge (Trace_Resolve C07VFlag = 2, Dependent.tla
+    KF_next_other_value): before the first rejected chain step some method delegated
+    with call_next to values other than those it received while being a candidate for
+    the new argument classes, in a function where a value-dependent method is a
+    candidate for those classes."""
+    return ctx.get("kf") == "2" and clause.startswith("C07:value_chain.")
 
 
 @matcher("latemark")
